@@ -135,7 +135,7 @@ def c_stmt(s):
         # desugared in the reference: { const tmp = e; if tmp == v1 {a1} else if tmp == v2 {a2} ... else {default} }
         global _match_tmp
         _match_tmp += 1
-        tmp = 100000 + _match_tmp
+        tmp = 3000 + _match_tmp
         chain = c_block(s[4]) if s[4] is not None else "SSkip"
         for v, b in reversed(s[3]):
             chain = "(SIf (EBin Eq (EVar %d) (ELit %s (%d)%%Z)) %s %s)" % (tmp, c_ity(s[2]), v, c_block(b), chain)
@@ -153,6 +153,8 @@ def c_fn(f):
         "; ".join("(%d, %s)" % (x, c_ty(t)) for x, t in f["params"]), c_ty(f["ret"]), c_block(f["body"]))
 
 def to_coq(prog):
+    global _match_tmp
+    _match_tmp = 0
     return "[" + ";\n   ".join(c_fn(f) for f in prog) + "]"
 
 def c_lines(lines):
